@@ -132,6 +132,26 @@ Proof.
   destruct (win_kmers K st lreads HK Hwf v Hv) as (Lv & Wv & _). eauto.
 Qed.
 End SpecOf.
+(* closed form: everything about the unpruned table at once *)
+Theorem unpruned_table_facts K st thr (lreads : list lread) order T :
+  4 <= K -> Forall (fun r => wf_dna (fst r)) lreads -> NoDup order ->
+  table_of K st thr 0 (whole_reads lreads) order = Some T ->
+  Permutation (keys pay T) (retained K st thr (map fst lreads)) /\
+  tbl_ok pay K st T /\
+  links_loose pay st T (unpruned_links K st thr lreads) /\
+  (forall ent, In ent T -> e_data pay ent = (kmer_colour K st lreads (e_key pay ent), [rank (e_key pay ent)])) /\
+  (forall ent d c, In ent T -> (c < 4)%N ->
+     (e_has_ext (e_exts pay ent) (dirb d) c = true <-> raw_ext_spec K st lreads (e_key pay ent) d c)).
+Proof.
+  intros HK Hwf Hnd H.
+  pose proof (table_of_unpruned_spec K st thr lreads HK Hwf order T Hnd H) as HT.
+  split; [exact (unpruned_keys K st thr lreads T HT)|].
+  split; [exact (unpruned_tbl_ok K st thr lreads Hwf T HT)|].
+  split; [exact (unpruned_links_ok K st thr lreads HK Hwf T HT)|].
+  split; [exact (unpruned_data K st thr lreads T HT)|].
+  exact (unpruned_exts K st thr lreads T HT).
+Qed.
 Print Assumptions table_of_unpruned_spec.
 Print Assumptions table_of_unpruned_total.
 Print Assumptions unpruned_links_ok.
+Print Assumptions unpruned_table_facts.
